@@ -40,6 +40,9 @@ type World struct {
 	localAlias          map[*ssa.Function]map[string]string // recorded local name -> current name (locals.go)
 	renamedLocals       []string
 	renamedFuncs        []string
+	movedLoops          []string
+	recLoops            map[string]int // loops per function under contract when the contracts were last committed
+	recLocals           localsFile
 	allFuncs            []*ssa.Function
 }
 
